@@ -48,6 +48,7 @@ fn check_tuple(run: &Run, w: bool, rem: u64, inc: u64, mtg: Option<u32>, oh: u64
     match limits(w, rem, inc, mtg, oh, both) {
         Err(e) => run.violation("time-alloc-panic", format!("time-alloc-panic|{key}"), case(), format!("TimeStrategy::new panicked for {key}: {e}")),
         Ok((soft, hard)) => {
+            run.distinct_outcome_sig((soft.as_millis() as u64) << 32 | hard.as_millis() as u64, || format!("soft {} ms hard {} ms", soft.as_millis(), hard.as_millis()));
             // hard <= (remaining - overhead) / 2, tolerance 1 ms (f32 seconds arithmetic)
             let bound_us = (rem - oh) * 1000 / 2 + 1000;
             if hard.as_micros() as u64 > bound_us {
